@@ -12,7 +12,8 @@
 //
 //	the cache's sleeper goroutines are waited for after every advance, so recordings are reproducible).
 //
-// flows mode:  the real Retry processor inside an engine built from a directory:
+// flows mode:  the real Retry processor inside an engine built from a directory (one engine per configuration and
+//	process; every history uses sequence ids of its own, so it starts from fresh retry state):
 //
 //	response flow  Filter(status_code_range) -hit-> Retry -retry/failed-> end ; mock clock pumped while the
 //	processor waits for its cool-down.  The multiplier is written as a YAML float ("2.0"): an integer literal
@@ -44,6 +45,7 @@ import (
 	streamtypes "lunar/engine/streams/types"
 	"lunar/engine/utils/environment"
 	sharedConfig "lunar/shared-model/config"
+	"lunar/toolkit-core/clock"
 	contextmanager "lunar/toolkit-core/context-manager"
 	"lunar/toolkit-core/verifhook"
 
@@ -233,15 +235,21 @@ flow:
 `
 
 type flowsRun struct {
-	eng  *streams.Stream
-	txn  int
-	pump bool // the processor waits for a positive cool-down: the mock clock must be moved while it runs
+	eng    *streams.Stream
+	clock  *clock.MockClock // the clock the engine's processors were built with
+	txn    int
+	pump   bool   // the processor waits for a positive cool-down: the mock clock must be moved while it runs
+	prefix string // sequence ids are made unique per history ("<prefix><s>"): one engine serves many histories
 
 	mu   sync.Mutex
 	seen []string // outputs of RetryProc during the current transaction
 }
 
 var engineDirSeq int
+
+// engines: one engine per configuration and process.  The retry counters live in the flow context keyed by sequence id,
+// so a history gets fresh state through fresh sequence ids, not through a fresh engine (building one costs ~20 ms).
+var engines = map[string]*flowsRun{}
 
 var current *flowsRun // the engine whose Retry processor outputs are being recorded
 
@@ -282,6 +290,13 @@ func newFlows(e Event, root string) (*flowsRun, error) {
 	if len(e.Ranges) != 1 {
 		return nil, fmt.Errorf("flows mode takes exactly one status range")
 	}
+	historySeq++
+	key := fmt.Sprintf("%d/%d/%d/%d-%d", e.A, e.Cd, e.Mult, e.Ranges[0][0], e.Ranges[0][1])
+	if f, ok := engines[key]; ok {
+		f.prefix = fmt.Sprintf("h%d.", historySeq)
+		current = f
+		return f, nil
+	}
 	engineDirSeq++
 	dir := filepath.Join(root, fmt.Sprintf("eng-%d", engineDirSeq))
 	for _, d := range []string{"flows", "quotas"} {
@@ -302,31 +317,38 @@ func newFlows(e Event, root string) (*flowsRun, error) {
 		return nil, err
 	}
 	os.RemoveAll(dir)
-	f := &flowsRun{eng: eng, pump: e.Cd > 0 || e.Mult > 0}
+	f := &flowsRun{eng: eng, clock: contextmanager.Get().GetMockClock(), pump: e.Cd > 0 || e.Mult > 0,
+		prefix: fmt.Sprintf("h%d.", historySeq)}
+	engines[key] = f
 	current = f
 	return f, nil
 }
 
 func (f *flowsRun) resp(e Event) vh.Ev {
 	f.txn++
-	id := fmt.Sprintf("%s-t%d", e.S, f.txn)
+	seq := f.prefix + e.S
+	id := fmt.Sprintf("%s-t%d", seq, f.txn)
 	if e.New {
-		id = e.S
+		id = seq
 	}
 	f.mu.Lock()
 	f.seen = nil
 	f.mu.Unlock()
 	api := streamtypes.NewResponseAPIStream(lunarMessages.OnResponse{
-		ID: id, SequenceID: e.S, Method: "GET", URL: "api.test/x", Status: e.St, Headers: map[string]string{},
+		ID: id, SequenceID: seq, Method: "GET", URL: "api.test/x", Status: e.St, Headers: map[string]string{},
 	}, lunarcontext.NewMemoryState[[]byte]())
 	acts := &streamconfig.StreamActions{Request: &streamconfig.RequestStream{}, Response: &streamconfig.ResponseStream{}}
 	done := make(chan error, 1)
 	go func() { done <- f.eng.ExecuteFlow(api, acts) }()
 	var err error
-	mock := contextmanager.Get().GetMockClock()
+	mock := f.clock
 	deadline := time.Now().Add(10 * time.Second)
 wait:
 	for {
+		if !f.pump {
+			err = <-done // nothing to wait for inside the processor
+			break
+		}
 		select {
 		case err = <-done:
 			break wait
@@ -368,7 +390,7 @@ wait:
 }
 
 func (f *flowsRun) adv(d int) {
-	contextmanager.Get().GetMockClock().AdvanceTime(time.Duration(d) * time.Second)
+	f.clock.AdvanceTime(time.Duration(d) * time.Second)
 }
 
 // ------------------------------------------------------------------------ main
@@ -388,6 +410,7 @@ func main() {
 	var scripts []Script
 	vh.ReadJSON(os.Args[2], &scripts)
 	for si, sc := range scripts {
+		engines = map[string]*flowsRun{} // engines are shared by the histories of one script only: a script is replayable on its own
 		tr := vh.NewTrace()
 		tr.Add(vh.Ev{"ev": "config", "property": "C17"})
 		for _, h := range sc.Histories {
